@@ -1016,9 +1016,18 @@ func (x *Exec) execCall(fr *Frame, st *State, instr ssa.Instruction, c *ssa.Call
 		// the callee's parameter names denote the arguments inside at-call clauses
 		x.atCallArgs = map[string]Val{}
 		names := x.paramNames(spec, callee, c)
+		skip := 0
+		if c.IsInvoke() || c.Signature().Recv() != nil {
+			skip = 1
+		}
 		for i, a := range x.callArgValues(c) {
+			v := x.val(fr, a)
 			if i < len(names) {
-				x.atCallArgs[names[i]] = x.val(fr, a)
+				x.atCallArgs[names[i]] = v
+			}
+			if i >= skip {
+				// argK: the K-th explicit argument (for a callee parameter name shadowed by a local)
+				x.atCallArgs[fmt.Sprintf("arg%d", i-skip)] = v
 			}
 		}
 	}
